@@ -84,14 +84,13 @@ Qed.
 
 (* a created id cannot have been created before: its source transaction would
    spend again an input that is already spent. Transaction-level facts only. *)
-Lemma apply_fresh_ids g U s b head spent :
+Lemma apply_fresh_ids_ok g U s b head spent :
   ids_consistent g U -> inv_utxo g U s -> incl (b_txns b) U ->
-  process_txns (utxo s) head (b_txns b) = Pass ->
+  txns_ok (utxo s) head (b_txns b) ->
   get_array (all_ins (b_txns b)) (utxo s) = Some spent ->
   forall x, In x (out_ids (b_txns b)) -> ~ In x (created_ids (chain s)).
 Proof.
-  intros [Ca [Cb Cc]] [I1 [I2 [I3 [I4 [I5 [cs [Ec Hcs]]]]]]] Hb Hp Hg x Hx Hin.
-  destruct (process_txns_inv _ _ _ Hp) as [_ [P1 _]].
+  intros [Ca [Cb Cc]] [I1 [I2 [I3 [I4 [I5 [cs [Ec Hcs]]]]]]] Hb [P1 _] Hg x Hx Hin.
   apply in_out_ids in Hx. destruct Hx as [t [o [Ht [Ho Hxo]]]].
   rewrite Ec in Hin. apply in_created_ids in Hin. destruct Hin as [b0 [Hb0 Hx0]].
   apply in_app_or in Hb0. destruct Hb0 as [Hb0|Hb0].
@@ -114,6 +113,13 @@ Proof.
     destruct Hb0 as [Hb0|[]]. subst b0. apply (Cc t o (Hb t Ht) Ho). rewrite Hxo. assumption.
 Qed.
 
+Lemma apply_fresh_ids g U s b head spent :
+  ids_consistent g U -> inv_utxo g U s -> incl (b_txns b) U ->
+  process_txns (utxo s) head (b_txns b) = Pass ->
+  get_array (all_ins (b_txns b)) (utxo s) = Some spent ->
+  forall x, In x (out_ids (b_txns b)) -> ~ In x (created_ids (chain s)).
+Proof. intros Hc Hi Hb Hp. apply (apply_fresh_ids_ok g U s b head spent Hc Hi Hb). apply process_txns_ok. assumption. Qed.
+
 Lemma new_ids_never_created g U s b s' :
   ids_consistent g U -> inv_utxo g U s -> incl (b_txns b) U ->
   exec_block s b = (s', Accepted) ->
@@ -124,17 +130,17 @@ Proof.
   exact (apply_fresh_ids _ _ _ _ _ _ Hc Hinv Hb Hp Hg).
 Qed.
 
-Lemma apply_preserves_utxo g U s b head spent :
+Lemma apply_preserves_utxo_ok g U s b head spent :
   ids_consistent g U -> incl (b_txns b) U ->
-  process_txns (utxo s) head (b_txns b) = Pass ->
+  txns_ok (utxo s) head (b_txns b) ->
   get_array (all_ins (b_txns b)) (utxo s) = Some spent ->
   insert_ok s b = true ->
   inv_utxo g U s -> inv_utxo g U (apply_block s b spent).
 Proof.
   intros Hc Hb Hp Hg Hi Hinv.
-  pose proof (apply_fresh_ids _ _ _ _ _ _ Hc Hinv Hb Hp Hg) as Hnew.
+  pose proof (apply_fresh_ids_ok _ _ _ _ _ _ Hc Hinv Hb Hp Hg) as Hnew.
   destruct Hinv as [I1 [I2 [I3 [I4 [I5 [cs [Ec Hcs]]]]]]].
-  destruct (process_txns_inv _ _ _ Hp) as [_ [P1 [P2 [P3 P4]]]].
+  destruct Hp as [P1 [P2 [P3 P4]]].
   pose proof (get_array_incl _ _ _ Hg) as Hins. rewrite Forall_forall in P3.
   unfold inv_utxo, apply_block. cbn [utxo chain].
   assert (Ecr : created_ids (b :: chain s) = out_ids (b_txns b) ++ created_ids (chain s)) by reflexivity.
@@ -158,6 +164,14 @@ Proof.
     - intros [[H1|H1] H2]; [tauto|]. left. split; [|tauto]. apply I5. tauto. }
   exists (b :: cs). split; [rewrite Ec; reflexivity|constructor; assumption].
 Qed.
+
+Lemma apply_preserves_utxo g U s b head spent :
+  ids_consistent g U -> incl (b_txns b) U ->
+  process_txns (utxo s) head (b_txns b) = Pass ->
+  get_array (all_ins (b_txns b)) (utxo s) = Some spent ->
+  insert_ok s b = true ->
+  inv_utxo g U s -> inv_utxo g U (apply_block s b spent).
+Proof. intros Hc Hb Hp. apply apply_preserves_utxo_ok with (head := head); [assumption|assumption|]. apply process_txns_ok. assumption. Qed.
 
 Lemma exec_preserves_utxo g U s b s' :
   ids_consistent g U -> exec_block s b = (s', Accepted) -> incl (b_txns b) U ->
